@@ -260,6 +260,47 @@ pub fn run(run: &Run) {
             }
         });
     }
+    // ONE long run of blanks (257, 300, 400 - the whole string stays under 512 characters) at each token boundary in turn,
+    // and statements whose atom subject / predicate has a name of 63..300 characters written without any blank
+    for f in fmts::all() {
+        let mut vals: Vec<V> = vec![
+            V::term(R::pair(Tag::Inh, R::word("a"), R::atom(Tag::IVar, "b1"))),
+            V::term(R::node(Tag::Product, vec![R::word("a"), R::node(Tag::SetExt, vec![R::word("b1")])])),
+            V { term: R::pair(Tag::Sim, R::word("a"), R::word("b1")), punct: Some(P::Judgement), stamp: St::Fixed(-1), truth: vec![1.0, 0.9], budget: Some(vec![0.5, 0.75, 0.4]) },
+            V { term: R::image(Tag::ImageExt, 1, vec![R::word("r"), R::word("x")]), punct: Some(P::Goal), stamp: St::Present, truth: vec![0.5], budget: None },
+        ];
+        for n in u::class_names().into_iter().filter(|n| n.chars().count() >= 60) {
+            vals.push(V::term(R::pair(Tag::Inh, R::word(&n), R::word("b"))));
+            vals.push(V::term(R::pair(Tag::Impl, R::word("b"), R::atom(Tag::Operator, &n))));
+            vals.push(V::term(R::node(Tag::Product, vec![R::word(&n), R::word(&n)])));
+        }
+        vals.par_iter().for_each(|v| {
+            let toks = emit::value(&f, v);
+            let expect = v.canon();
+            let feats = c01::features(&f, v);
+            let base_len: usize = toks.iter().map(|t| t.chars().count()).sum();
+            let mut ss = vec![emit::join(&toks, "")];
+            for run_len in [257usize, 300, 400] {
+                if base_len + run_len > 512 {
+                    continue;
+                }
+                let blanks = " ".repeat(run_len);
+                for i in 0..=toks.len() {
+                    let mut seps: Vec<&str> = vec![""; toks.len() + 1];
+                    seps[i] = &blanks;
+                    ss.push(emit::join_with(&toks, &seps));
+                }
+            }
+            for s in &ss {
+                for p in [Pipe::Enum, Pipe::LexFold] {
+                    run.eval(1);
+                    if let Err(msg) = check(&f, p, s, &expect) {
+                        run.violation(&format!("[{}] {}", f.name, msg), json!({"op": "spacing", "format": f.name, "pipeline": format!("{p:?}"), "input": s, "value": v.to_json()}), &feats);
+                    }
+                }
+            }
+        });
+    }
     // statements written with the four DERIVED copulas (instance, property, instance-property, retrospective
     // equivalence) - well-formed surface strings no formatter prints: every spacing, both pipelines, against the
     // documented desugaring
